@@ -138,6 +138,10 @@ theorem diag_at_newline (nl : Bool) (file text : List UInt8) (e : PErr) (t : PTo
   obtain ⟨⟨a, _, b⟩, c, d, f, _⟩ := (run_ok nl file text).2.2.2.1 e he t ht
   exact ⟨by rw [c]; exact a, by rw [d]; exact (b hk).1, by rw [f]; exact (b hk).2⟩
 
+example : ((run false inC b!"# 3 \"h.c\"\n#line\n").err.map
+    fun e => (e.file, e.line, e.col, e.tok.map (fun t => (t.kind, t.off)))) =
+    some (b!"h.c", 4, 0, some (.TNEWLINE, 15)) := by decide +kernel
+
 -- non-vacuity: a diagnostic inside the SECOND directive, located under the numbering of the first
 example : ((run false inC b!"#line 5 \"g.c\"\n\n#line 9 x\n").err.map
     fun e => (e.file, e.line, e.col, e.kind, e.tok.map (·.off))) =
@@ -283,6 +287,9 @@ theorem presumedLine_mono (text : List UInt8) (D : List LineDir) (o1 o2 : Nat) (
     have hd := hle d (List.mem_of_getLast? hl)
     have := newlines_split text d.endOff o1 o2 hd h
     simp only []; omega
+
+example : inEffect [⟨14, 7, none⟩, ⟨40, 2, none⟩] 20 = inEffect [⟨14, 7, none⟩, ⟨40, 2, none⟩] 30 ∧
+    ∀ d ∈ inEffect [⟨14, 7, none⟩, ⟨40, 2, none⟩] 20, d.endOff ≤ 20 := by decide
 
 /-- … hence so do the line numbers of the delivered tokens -/
 theorem tok_line_monotone (nl : Bool) (file text : List UInt8) (t1 t2 : PTok)
